@@ -123,15 +123,15 @@ func execCEA(toks []string) string {
 var errScriptedWrite = fmt.Errorf("scripted write error")
 
 type peerScript struct {
-	mu       sync.Mutex
-	beh      []string // reaction to the k-th CER
-	wf       int      // the wf-th transport write fails (1-based; 0: none)
-	writes   int
-	cers     [][]byte
-	cerTimes []time.Time
-	dwrs     [][]byte
-	dwrBeh   []string // reaction to the k-th DWR overall
-	dwrIdx   int
+	mu         sync.Mutex
+	beh        []string // reaction to the k-th CER
+	wf         int      // the wf-th transport write fails (1-based; 0: none)
+	writes     int
+	cers       [][]byte
+	cerTimes   []time.Time
+	dwrs       [][]byte
+	dwrBeh     []string // reaction to the k-th DWR overall
+	dwrIdx     int
 	onFirstCER func() // called once, after the first CER has been written and before the peer reacts
 }
 
@@ -214,6 +214,11 @@ func (p *peerScript) hook(c *memConn, b []byte) (int, error) {
 		c.deliver(simpleMsg(280, 0x80, 0, 500+hbh%5, 500, diam.NewAVP(264, 0x40, 0, datatype.DiameterIdentity("srv.example.net")),
 			diam.NewAVP(296, 0x40, 0, datatype.DiameterIdentity("example.net")), diam.NewAVP(278, 0x40, 0, datatype.Unsigned32(77))))
 		c.deliver(simpleMsg(272, 0, 4, 700+hbh%7, 700, diam.NewAVP(268, 0x40, 0, datatype.Unsigned32(2001))))
+	case "cer:X": // in ONE segment: a failing CEA, then a valid one, then an application answer
+		seg := append([]byte(nil), ceaFor("F", hbh, e2e)...)
+		seg = append(seg, ceaFor("S", hbh, e2e)...)
+		seg = append(seg, simpleMsg(272, 0, 4, 700+hbh%7, 700, diam.NewAVP(268, 0x40, 0, datatype.Unsigned32(2001)))...)
+		c.deliver(seg)
 	case "cer:L": // a success CEA that takes a third of an interval to arrive
 		go func() { time.Sleep(clientInterval / 3); c.deliver(ceaFor("S", hbh, e2e)) }()
 	case "cer:D":
@@ -410,8 +415,17 @@ func execDial(toks []string) string {
 			post = fmt.Sprintf("%s,0/0,-", st)
 		}
 	}
+	// after a failed handshake nothing the peer sent along may reach the application: what is
+	// still in the read buffer is dispatched after the Close, so wait for the reader to end
+	late := "-"
+	if out.err != nil {
+		waitFor(mc.readerSawClose, time.Second)
+		hmu.Lock()
+		late = strconv.Itoa(handled)
+		hmu.Unlock()
+	}
 	mc.Close()
-	return fmt.Sprintf("out=%s cers=%d same=%d gap=%s closed=%d pre=%d post=%s cer=%s", class, ncer, same, gap, closed, pre, post, cer0)
+	return fmt.Sprintf("out=%s cers=%d same=%d gap=%s closed=%d pre=%d post=%s late=%s cer=%s", class, ncer, same, gap, closed, pre, post, late, cer0)
 }
 
 func execWD(toks []string) string {
@@ -432,6 +446,18 @@ func execWD(toks []string) string {
 			flat = append(flat, string(ch))
 		}
 		cycles = append(cycles, cyc)
+	}
+	// nowd=1: the state machine has served an earlier connection of a client without watchdog
+	// (what one client is configured to do must not decide what another gets)
+	if p, _ := kvGet(toks, "nowd"); p == "1" {
+		c0 := newClient(machine, R, false)
+		pc := newMemConn()
+		pc.local = memAddr{"tcp", "10.1.2.8:3868"}
+		pps := &peerScript{beh: []string{"S"}}
+		pc.writeHook = pps.hook
+		if c, err := c0.NewConn(pc, "mem"); err == nil && c != nil {
+			defer pc.Close()
+		}
 	}
 	mc := newMemConn()
 	ps := &peerScript{beh: []string{"S"}, dwrBeh: flat}
@@ -573,7 +599,7 @@ func genSMClient(r *RNG, n int, op string, emit func(string)) {
 					return
 				}
 			}
-			for _, b := range []string{"S", "F", "M", "A", "U", "N", "D", "P", "W"} {
+			for _, b := range []string{"S", "F", "M", "A", "U", "N", "D", "P", "W", "X"} {
 				rec(R, append(append([]string(nil), beh...), b))
 			}
 		}
@@ -592,7 +618,7 @@ func genSMClient(r *RNG, n int, op string, emit func(string)) {
 			R := r.Intn(4)
 			var beh []string
 			for k := 0; k < R+1; k++ {
-				b := []string{"N", "N", "P", "S", "S", "F", "M", "A", "U", "D", "W"}[r.Intn(11)]
+				b := []string{"N", "N", "P", "S", "S", "F", "M", "A", "U", "D", "W", "X"}[r.Intn(12)]
 				beh = append(beh, b)
 				if b != "N" && b != "P" && b != "W" {
 					break
@@ -641,6 +667,9 @@ func genSMClient(r *RNG, n int, op string, emit func(string)) {
 			line := fmt.Sprintf("smclient wd r=%d beh=%s", R, strings.Join(cyc, "/"))
 			if r.Chance(30) {
 				line += fmt.Sprintf(" chat=%d", 1+r.Intn(2))
+			}
+			if r.Chance(20) {
+				line += " nowd=1"
 			}
 			emit(line)
 		}
